@@ -209,6 +209,15 @@ class Case:
         out = dict(exc=None, solver=solver)
         w0 = None if w_init is None else w_init.copy()
         xw0 = None if Xw_init is None else Xw_init.copy()
+        if self.spec.get("buffers") == "strided" and xw0 is not None:
+            # the caller's buffers are strided views (every other slot of a larger array): legitimate numpy arrays that
+            # must still be updated in place
+            def strided(a):
+                big = np.zeros((2 * a.shape[0],) + a.shape[1:], dtype=a.dtype)
+                v = big[::2]
+                v[...] = a
+                return v
+            w0, xw0 = strided(w0), strided(xw0)
         from vlib.record import Trace
         try:
             with warnings.catch_warnings(), Trace(kinds=trace_kinds) as tr:
